@@ -71,8 +71,45 @@ func evaluate(c *rig.Ctx, cs *Case) verdict {
 		v.fails = append(v.fails, failure{kind: "diff", class: "c12.hang", what: "the real code did not finish the history within 30 s (a request blocked)"})
 		return v
 	}
-	outs := v.real.Outs
+	// answers of the authenticator / authorizer by request id; what the dispatcher did, in order
+	var outs, disps []ImplOut
+	for _, o := range v.real.Outs {
+		if o.Kind == "disp" {
+			disps = append(disps, o)
+		} else {
+			outs = append(outs, o)
+		}
+	}
 	sort.SliceStable(outs, func(i, j int) bool { return outs[i].Rid < outs[j].Rid })
+
+	// ---- judge D (last stage): the cluster that receives the proxied request is the cluster the request is bound to, and
+	// it is the cluster that produced the authentication and every authorization used for this request
+	for _, d := range disps {
+		if d.Problem != "" {
+			v.fails = append(v.fails, failure{kind: "judge", class: "c12.problem", impl: d, what: d.Problem})
+		}
+		if d.Proxied < 0 {
+			continue
+		}
+		if d.Proxied != d.Upstream {
+			v.fails = append(v.fails, failure{kind: "judge", class: "c12.proxied-to-other-cluster", impl: d,
+				what: fmt.Sprintf("request for host %q is bound to cluster instance %d (info.UpstreamCluster) but the dispatcher proxied it to instance %d", rig.UnHex(d.Host), d.Upstream, d.Proxied)})
+			continue
+		}
+		for _, o := range outs {
+			if o.Pipe != d.Pipe {
+				continue
+			}
+			producer := o.Own // a cached answer comes from the cache of the cluster resolved at that stage
+			for _, h := range o.Hits {
+				producer = h.Inst
+			}
+			if producer != d.Proxied {
+				v.fails = append(v.fails, failure{kind: "judge", class: "c12.proxied-to-other-cluster", impl: []ImplOut{o, d},
+					what: fmt.Sprintf("request for host %q was proxied to cluster instance %d, but its %s answer %s was produced by instance %d", rig.UnHex(d.Host), d.Proxied, o.Kind, canonRes(o.Res), producer)})
+			}
+		}
+	}
 
 	for _, pr := range v.real.Problems {
 		v.fails = append(v.fails, failure{kind: "diff", class: "c12.chain-problem", what: pr})
@@ -117,7 +154,7 @@ func evaluate(c *rig.Ctx, cs *Case) verdict {
 					what: fmt.Sprintf("%s request %d was reviewed through endpoint %q which was not ready when picked", o.Kind, o.Rid, rig.UnHex(h.Ep))})
 			}
 		}
-		if len(o.Hits) > 1 {
+		if len(o.Hits) > 5 { // retried reviews: at most the 5 attempts of WithExponentialBackoff
 			v.fails = append(v.fails, failure{kind: "diff", class: "c12.several-reviews", impl: o, what: fmt.Sprintf("request %d was reviewed %d times", o.Rid, len(o.Hits))})
 		}
 		if o.Problem != "" {
@@ -231,12 +268,26 @@ func evaluate(c *rig.Ctx, cs *Case) verdict {
 		v.skippedDiff = "drop-not-observed"
 		return v
 	}
-	if len(m.Outs) != len(outs) {
-		v.fails = append(v.fails, failure{kind: "diff", class: "c12.diff-count", impl: outs, model: m.Outs,
-			what: fmt.Sprintf("the code answered %d requests, the model %d", len(outs), len(m.Outs))})
+	var mo, md []ModelOut
+	for _, x := range m.Outs {
+		if x.Kind == "disp" {
+			md = append(md, x)
+		} else {
+			mo = append(mo, x)
+		}
+	}
+	if len(mo) != len(outs) || len(md) != len(disps) {
+		v.fails = append(v.fails, failure{kind: "diff", class: "c12.diff-count", impl: v.real.Outs, model: m.Outs,
+			what: fmt.Sprintf("the code answered %d requests and dispatched %d, the model %d and %d", len(outs), len(disps), len(mo), len(md))})
 		return v
 	}
-	mo := append([]ModelOut{}, m.Outs...)
+	for i, d := range disps {
+		if md[i].Upstream != d.Upstream || md[i].Proxied != d.Proxied || md[i].Time != d.Time {
+			v.fails = append(v.fails, failure{kind: "diff", class: "c12.diff-dispatch", impl: d, model: md[i],
+				what: fmt.Sprintf("dispatch of the request for host %q differs: code bound=%d proxied=%d time=%d (HTTP %d), model bound=%d proxied=%d time=%d",
+					rig.UnHex(d.Host), d.Upstream, d.Proxied, d.Time, d.Code, md[i].Upstream, md[i].Proxied, md[i].Time)})
+		}
+	}
 	sort.SliceStable(mo, func(i, j int) bool { return mo[i].Rid < mo[j].Rid })
 	for i, o := range outs {
 		x := mo[i]
@@ -258,15 +309,17 @@ func evaluate(c *rig.Ctx, cs *Case) verdict {
 		case (x.Ep != nil) != o.Reviewed:
 			d("reviewed")
 		}
-		if o.Reviewed && x.Ep != nil && len(o.Hits) == 1 {
-			found := false
-			for _, r := range x.Ready {
-				if r == o.Hits[0].Ep {
-					found = true
+		if o.Reviewed && x.Ep != nil {
+			for _, hh := range o.Hits { // every attempt goes through one of the endpoints that were ready at the pick
+				found := false
+				for _, r := range x.Ready {
+					if r == hh.Ep {
+						found = true
+					}
 				}
-			}
-			if !found {
-				d("endpoint-not-among-the-models-ready-endpoints")
+				if !found {
+					d("endpoint-not-among-the-models-ready-endpoints")
+				}
 			}
 		}
 	}
@@ -413,6 +466,18 @@ func bucketOf(c *rig.Ctx, profile string, feat map[string]bool) string {
 
 func countOutcomes(c *rig.Ctx, v verdict) {
 	for _, o := range v.real.Outs {
+		if o.Kind == "disp" {
+			switch {
+			case o.Proxied >= 0:
+				c.Count("dispatch proxied")
+			default:
+				c.Count(fmt.Sprintf("dispatch refused (HTTP %d)", o.Code))
+			}
+			continue
+		}
+		if len(o.Hits) > 1 {
+			c.Count("review retried after a retryable error")
+		}
 		how := "cached"
 		if o.Reviewed {
 			how = "reviewed"
@@ -439,7 +504,7 @@ func countOutcomes(c *rig.Ctx, v verdict) {
 		c.Count("bound request ended by WithUpstreamInfo (host not proxied)")
 	}
 	for _, o := range v.real.Outs {
-		if o.Upstream >= 0 && o.Own != o.Upstream {
+		if o.Kind != "disp" && o.Upstream >= 0 && o.Own != o.Upstream {
 			c.Count("bound request whose host resolved elsewhere at the authenticator/authorizer")
 		}
 	}
@@ -547,7 +612,7 @@ func main() {
 			default:
 				profile = "short"
 			}
-			cs, feat := genCase(c.Rng, profile)
+			cs, feat := genCase(c.Rng, profile, i%160 == 7) // token-review retries (500 ms each) in a few cases only
 			runCase(c, cs, bucketOf(c, profile, feat), true)
 		}
 	})
